@@ -420,3 +420,13 @@ def guard(ctx, sub, fn, *args):
 					(type(e).__name__, os.path.relpath(inner, REPO), tb[-1].lineno))
 		else:
 			ctx.inconclusive_because("%s: harness error: %s" % (sub, txt))
+
+
+def quiet_logging():
+	""" The toolkit logs through the root logger: keep it off stderr. """
+	import logging
+	root = logging.getLogger()
+	for h in list(root.handlers):
+		root.removeHandler(h)
+	root.addHandler(logging.NullHandler())
+	root.setLevel(logging.CRITICAL + 1)
